@@ -1,5 +1,316 @@
-import KatdalModel.Model.Categorical
+/-
+  C10 — Categorical sensors are mapped onto dumps by the documented rule.
+
+  "A categorical (non-numeric) sensor converted to per-dump values assigns every dump exactly one
+   value: the latest 'greedy' value among the values in effect at any moment of the dump if there
+   is one, otherwise the value in effect at the end of the dump, where the last event before the
+   first dump (or else the supplied initial value, or else the first event) defines the value at
+   the start and events after the last dump are ignored.  The result always covers dumps 0..N-1
+   with strictly increasing event boundaries, applies the optional transform before any
+   comparison, and contains no repeated consecutive values unless repeats are allowed."
+
+  Model (mirror of katdal/categorical.py): `Categorical.sensorToCategorical`, with the mutating
+  generator `_single_event_per_dump` as `Categorical.sepd` (array `ev` updated in place).
+  Spec: `Categorical.rule` (dump `d` = half-open interval `(end_{d-1}, end_d]`, per dump the
+  values in effect = carried value followed by the dump's events, `winner`, `carry`).
+
+  The theorems are about the *mirror itself* (no functional reformulation is left in the
+  statements): `Lemmas/CatSepd.lean` proves that the mirror with its in-place `events[i] += 1`
+  computes the array-free `fLoop` (simulation, `sepd_eq`) and that the yields of `fLoop` written
+  out dump by dump are the rule (loop invariant `Inv`, `fLoop_rule`).
+
+  Full vs partial: the rule holds outside two input families in which the implementation (and
+  hence the mirror) departs from the documented rule; both are recorded as known findings and
+  both have a kernel-checked negation witness below:
+    (a) no event before the first dump, an event inside dump 0, and a *greedy* initial value;
+    (b) no event before the end of the last dump (IndexError even with an initial value).
+-/
+import KatdalModel.Lemmas.CatMain
 open Np Categorical
+
 namespace C10
-theorem placeholder : (1 : Nat) = 1 := rfl
+
+variable {V : Type} [DecidableEq V]
+
+/-! ### the spec's notion of "dump d" -/
+
+theorem filter_lt_take_drop (t : Int) : ∀ (E : List Int), E.Pairwise (· < ·) →
+    (∀ x ∈ E.take (E.filter (· < t)).length, x < t) ∧ (∀ x ∈ E.drop (E.filter (· < t)).length, t ≤ x) := by
+  intro E
+  induction E with
+  | nil => intro _; simp
+  | cons a r ih =>
+    intro hs
+    have hs' := List.pairwise_cons.mp hs
+    by_cases ha : a < t
+    · have := ih hs'.2
+      simp only [List.filter_cons, ha, decide_true, if_true, List.length_cons, List.take_succ_cons,
+        List.drop_succ_cons, List.mem_cons]
+      refine ⟨?_, this.2⟩
+      rintro x (rfl | hx)
+      · exact ha
+      · exact this.1 x hx
+    · have hnil : r.filter (· < t) = [] := by
+        apply List.filter_eq_nil_iff.mpr
+        intro x hx
+        have := hs'.1 x hx
+        simp only [decide_eq_true_eq]; omega
+      simp only [List.filter_cons, ha, decide_false, Bool.false_eq_true, if_false, hnil, List.length_nil,
+        List.take_zero, List.drop_zero, List.mem_cons]
+      refine ⟨by simp, ?_⟩
+      rintro x (rfl | hx)
+      · omega
+      · have := hs'.1 x hx; omega
+
+/-- **Dump `d` is the half-open interval `(end_{d-1}, end_d]`** (with `end_{-1} = end_0 - period`):
+    `dumpOf … t = k - 1` exactly when the first `k` boundaries lie strictly below `t` and all
+    remaining boundaries are at or above `t`.  `k = 0` is "before the first dump", `k = N + 1` is
+    "after the last dump". -/
+theorem c10_dump_is_interval (ends : List Int) (period t : Int) (k : Nat)
+    (hE : ((ends.headD 0 - period) :: ends).Pairwise (· < ·)) (hk : k ≤ ends.length + 1) :
+    dumpOf ends period t = (k : Int) - 1 ↔
+      (∀ x ∈ ((ends.headD 0 - period) :: ends).take k, x < t) ∧
+      (∀ x ∈ ((ends.headD 0 - period) :: ends).drop k, t ≤ x) := by
+  have hfl := filter_lt_take_drop t _ hE
+  constructor
+  · intro h
+    have hk' : (((ends.headD 0 - period) :: ends).filter (· < t)).length = k := by
+      simp only [dumpOf] at h; omega
+    rw [hk'] at hfl
+    exact hfl
+  · rintro ⟨h1, h2⟩
+    have hsplit : ((ends.headD 0 - period) :: ends) =
+        ((ends.headD 0 - period) :: ends).take k ++ ((ends.headD 0 - period) :: ends).drop k :=
+      (List.take_append_drop k _).symm
+    have hlen : (((ends.headD 0 - period) :: ends).filter (· < t)).length = k := by
+      rw [hsplit, List.filter_append]
+      have e1 : (((ends.headD 0 - period) :: ends).take k).filter (· < t) = ((ends.headD 0 - period) :: ends).take k := by
+        apply List.filter_eq_self.mpr
+        intro x hx; simpa using h1 x hx
+      have e2 : (((ends.headD 0 - period) :: ends).drop k).filter (· < t) = [] := by
+        apply List.filter_eq_nil_iff.mpr
+        intro x hx
+        have := h2 x hx
+        simp only [decide_eq_true_eq]; omega
+      rw [e1, e2, List.append_nil, List.length_take]
+      simp only [List.length_cons]
+      omega
+    simp only [dumpOf, hlen]
+
+/-! ### the rule -/
+
+theorem sorted_edges (e0 : Int) (es : List Int) (period : Int) (hends : (e0 :: es).Pairwise (· < ·))
+    (hper : 0 < period) : ((e0 - period) :: e0 :: es).Pairwise (· ≤ ·) := by
+  have h' := List.pairwise_cons.mp hends
+  refine List.pairwise_cons.mpr ⟨?_, hends.imp (fun h => Int.le_of_lt h)⟩
+  intro x hx
+  simp only [List.mem_cons] at hx
+  rcases hx with rfl | hx
+  · omega
+  · have := h'.1 x hx; omega
+
+/-- **The documented rule (partial: outside the two known-finding families).**
+    For all non-decreasing event times, values, strictly increasing dump end times, transforms,
+    initial values, greedy sets and `allow_repeats`: if (b') some event lies before the end of the
+    last dump and (a') it is not the case that {no event lies before the first dump, the initial
+    value is greedy and an event falls inside dump 0}, then `sensor_to_categorical` succeeds and
+    the per-dump list of the returned container is exactly the rule's. -/
+theorem c10_rule_partial (ts : List Int) (vals : List V) (e0 : Int) (es : List Int) (period : Int)
+    (tr : Option (V → V)) (init : Option V) (greedyVals : List V) (allowRepeats : Bool)
+    (hlen : ts.length = vals.length) (hts : ts.Pairwise (· ≤ ·))
+    (hends : (e0 :: es).Pairwise (· < ·)) (hper : 0 < period)
+    (hB : ∃ t ∈ ts, dumpOf (e0 :: es) period t < ((es.length + 1 : Nat) : Int))
+    (hA : ¬ ((∀ t ∈ ts, 0 ≤ dumpOf (e0 :: es) period t) ∧
+              (∃ iv, init = some iv ∧ greedyVals.contains iv = true) ∧
+              (∃ t ∈ ts, dumpOf (e0 :: es) period t = 0))) :
+    ∃ c r, sensorToCategorical ts vals (e0 :: es) period tr init greedyVals allowRepeats = .ok c ∧
+      rule ts vals (e0 :: es) period tr init greedyVals = some r ∧ c.perDump = r.map some := by
+  obtain ⟨c, r, h1, h2, h3⟩ := s2c_main ts vals e0 es period tr init greedyVals allowRepeats hlen hts
+    (sorted_edges e0 es period hends hper) hB hA
+  exact ⟨c, r, h1, h2, h3.perDump⟩
+
+/-- the unguarded statement is false, witness (a): one event inside dump 0, no earlier event,
+    greedy initial value `7`: the rule gives `[7, 1]` (the initial value is in effect at the start
+    of dump 0 and is greedy), the implementation gives `[1, 1]` -/
+theorem c10_rule_full_is_false_greedy_initial :
+    (sensorToCategorical [3] [1] [4, 8] 4 none (some 7) [7] false).map Cat.perDump ≠
+      .ok (((rule [3] [1] [4, 8] 4 none (some 7) [7]).getD []).map some) := by
+  decide
+
+/-- witness (b): the only event lies after the last dump and an initial value is supplied: the
+    rule gives the initial value for every dump, the implementation raises IndexError -/
+theorem c10_rule_full_is_false_no_event :
+    sensorToCategorical [9] [1] [4, 8] 4 none (some 7) [] false = .error .index ∧
+      rule [9] [1] [4, 8] 4 none (some 7) [] = some [7, 7] := by
+  decide
+
+/-! ### structure of the result -/
+
+theorem pairwise_lt_strictInc : ∀ (l : List Nat), l.Pairwise (· < ·) → strictIncNat l = true := by
+  intro l
+  induction l with
+  | nil => intro _; rfl
+  | cons a t ih =>
+    intro h
+    cases t with
+    | nil => rfl
+    | cons b u =>
+      have h' := List.pairwise_cons.mp h
+      simp only [strictIncNat, Bool.and_eq_true, decide_eq_true_eq]
+      exact ⟨h'.1 b (List.mem_cons_self ..), ih h'.2⟩
+
+theorem ruleFrom_length {α : Type} (g : α → Bool) (evs : List (Int × α)) :
+    ∀ (k d : Nat) (c : α), (ruleFrom g evs d k c).length = k := by
+  intro k
+  induction k with
+  | zero => intro d c; rfl
+  | succ k ih => intro d c; simp [ruleFrom, ih]
+
+/-- **The result always covers dumps 0..N-1 with strictly increasing event boundaries** (first
+    boundary 0, last boundary N, one value per dump) and is a well-formed container (indices in
+    range, unique values pairwise distinct), under the same hypotheses as `c10_rule_partial`. -/
+theorem c10_events_strict (ts : List Int) (vals : List V) (e0 : Int) (es : List Int) (period : Int)
+    (tr : Option (V → V)) (init : Option V) (greedyVals : List V) (allowRepeats : Bool)
+    (hlen : ts.length = vals.length) (hts : ts.Pairwise (· ≤ ·))
+    (hends : (e0 :: es).Pairwise (· < ·)) (hper : 0 < period)
+    (hB : ∃ t ∈ ts, dumpOf (e0 :: es) period t < ((es.length + 1 : Nat) : Int))
+    (hA : ¬ ((∀ t ∈ ts, 0 ≤ dumpOf (e0 :: es) period t) ∧
+              (∃ iv, init = some iv ∧ greedyVals.contains iv = true) ∧
+              (∃ t ∈ ts, dumpOf (e0 :: es) period t = 0))) :
+    ∃ c, sensorToCategorical ts vals (e0 :: es) period tr init greedyVals allowRepeats = .ok c ∧
+      c.WF ∧ c.ev.head? = some 0 ∧ c.numDumps = es.length + 1 ∧ c.perDump.length = es.length + 1 ∧
+      (∀ v ∈ c.perDump, v ≠ none) := by
+  obtain ⟨c, r, h1, h2, h3⟩ := s2c_main ts vals e0 es period tr init greedyVals allowRepeats hlen hts
+    (sorted_edges e0 es period hends hper) hB hA
+  obtain ⟨v, Pt, hc, hs, hlt, _⟩ := h3.shape
+  have hrlen : r.length = es.length + 1 := by
+    simp only [rule] at h2
+    split at h2
+    · simp at h2
+    · split at h2
+      · simp at h2
+      · simp only [Option.some.injEq] at h2
+        rw [← h2, ruleFrom_length]
+        rfl
+  refine ⟨c, h1, ?_, ?_, ?_, ?_, ?_⟩
+  · obtain ⟨w1, w2, w3⟩ := new_wf_parts (((v, 0) :: Pt).map (·.1)) (((v, 0) :: Pt).map (·.2) ++ [es.length + 1])
+    rw [← hc] at w1 w2 w3
+    refine ⟨?_, ?_, w1, w2⟩
+    · rw [hc, new_ev]
+      apply pairwise_lt_strictInc
+      rw [List.pairwise_append]
+      refine ⟨hs, by simp, ?_⟩
+      intro a ha b hb
+      simp only [List.mem_singleton] at hb
+      subst hb
+      simp only [List.mem_map] at ha
+      obtain ⟨p, hp, rfl⟩ := ha
+      exact hlt p hp
+    · rw [w3, hc, new_ev]; simp
+  · rw [hc, new_ev]; simp
+  · rw [hc]; simp [Cat.numDumps, new_ev, List.getLastD, List.getLast?_cons, List.getLast?_append]
+  · rw [h3.perDump]; simp [hrlen]
+  · rw [h3.perDump]; intro x hx; simp only [List.mem_map] at hx; obtain ⟨y, _, rfl⟩ := hx; simp
+
+/-- **No repeated consecutive values unless repeats are allowed**: with `allow_repeats=False`
+    neighbouring events of the result never carry the same value. -/
+theorem c10_no_repeats (ts : List Int) (vals : List V) (e0 : Int) (es : List Int) (period : Int)
+    (tr : Option (V → V)) (init : Option V) (greedyVals : List V)
+    (hlen : ts.length = vals.length) (hts : ts.Pairwise (· ≤ ·))
+    (hends : (e0 :: es).Pairwise (· < ·)) (hper : 0 < period)
+    (hB : ∃ t ∈ ts, dumpOf (e0 :: es) period t < ((es.length + 1 : Nat) : Int))
+    (hA : ¬ ((∀ t ∈ ts, 0 ≤ dumpOf (e0 :: es) period t) ∧
+              (∃ iv, init = some iv ∧ greedyVals.contains iv = true) ∧
+              (∃ t ∈ ts, dumpOf (e0 :: es) period t = 0))) :
+    ∃ c, sensorToCategorical ts vals (e0 :: es) period tr init greedyVals false = .ok c ∧
+      ∀ i x y, c.values[i]? = some x → c.values[i + 1]? = some y → x ≠ y := by
+  obtain ⟨c, r, h1, _, h3⟩ := s2c_main ts vals e0 es period tr init greedyVals false hlen hts
+    (sorted_edges e0 es period hends hper) hB hA
+  obtain ⟨v, Pt, hc, _, _, hrep⟩ := h3.shape
+  refine ⟨c, h1, ?_⟩
+  intro i x y hx hy
+  rw [hc, new_values, List.getElem?_map] at hx hy
+  cases ha : (((v, 0) :: Pt).map (·.1))[i]? with
+  | none => simp [ha] at hx
+  | some a =>
+    cases hb : (((v, 0) :: Pt).map (·.1))[i + 1]? with
+    | none => simp [hb] at hy
+    | some b =>
+      simp only [ha, hb, Option.map_some, Option.some.injEq] at hx hy
+      subst hx hy
+      have := hrep rfl i a b ha hb
+      simpa using this
+
+/-- **The transform is applied before any comparison**: converting with a transform is the same
+    as converting the already transformed values without one (dump assignment does not look at
+    values; greedy membership, initial value and repeat removal only see transformed values).
+    Holds for all inputs, for the mirror and for the rule. -/
+theorem c10_transform_first (ts : List Int) (vals : List V) (ends : List Int) (period : Int)
+    (f : V → V) (init : Option V) (greedyVals : List V) (allowRepeats : Bool) :
+    sensorToCategorical ts vals ends period (some f) init greedyVals allowRepeats =
+      sensorToCategorical ts (vals.map f) ends period none init greedyVals allowRepeats ∧
+    rule ts vals ends period (some f) init greedyVals = rule ts (vals.map f) ends period none init greedyVals := by
+  constructor
+  · simp only [sensorToCategorical, s2cCut, s2cCutEv, pySlice, List.map_take, List.map_drop]
+  · simp only [rule, trFun, List.map_map, Function.id_comp]
+
+/-! ### the generator and the spec, separately -/
+
+/-- **`_single_event_per_dump` (mirror, with the in-place `events[i] += 1`) implements the
+    one-pass rule.**  For event dumps `0 :: D` (non-decreasing, below `N`), terminator `N` and
+    greedy flags `g0 :: G`: the generator succeeds, and writing its yields `(index, events[index])`
+    out dump by dump gives, for every dump, the index of the event the rule selects. -/
+theorem c10_generator (N : Nat) (hN : 0 < N) (D : List Nat) (g0 : Bool) (G : List Bool)
+    (hlen : G.length = D.length) (hD : D.Pairwise (· ≤ ·)) (hDN : ∀ d ∈ D, d < N) :
+    ∃ out ev' dumps, sepd (0 :: (D ++ [N])) (g0 :: G) = .ok (out, ev') ∧
+      takeIdx ev' out = .ok dumps ∧
+      ∀ cur, expandFrom N 0 cur (out.zip dumps) =
+        ruleS (fun i => (g0 :: G).getD i false) N 0 (if g0 = true then some 0 else none) 0 (D.zipIdx 1) := by
+  have hlenG : (g0 :: G).length = (D ++ [N]).length := by simp [hlen]
+  obtain ⟨ev', hsepd, hev'⟩ := sepd_eq (D ++ [N]) (g0 :: G) hlenG
+  have hinv : ∀ cur, Inv (fun i => (g0 :: G).getD i false) ⟨0, 0, 0⟩ 0 cur := by
+    intro cur
+    cases g0 with
+    | true => left; simp
+    | false => right; right; simp
+  have hsorted0 : ((0 : Nat) :: D).Pairwise (· ≤ ·) := List.pairwise_cons.mpr ⟨fun _ _ => Nat.zero_le _, hD⟩
+  have hgterm : (fun i => (g0 :: G).getD i false) (0 + 1 + D.length) = false := by
+    simp only [List.getD]
+    rw [List.getElem?_eq_none (by simp [hlen]; omega)]
+    rfl
+  refine ⟨_, ev', _, hsepd, takeIdx_pairs ev' _ hev', ?_⟩
+  intro cur
+  have := fLoop_rule _ N D 0 ⟨0, 0, 0⟩ cur 0 (hinv cur) (Nat.le_refl _) hN hDN hsorted0 hgterm
+  have hz : ∀ l : List (Nat × Nat), (l.map Prod.fst).zip (l.map (·.2)) = l := by
+    intro l; induction l <;> simp_all
+  rw [hz]
+  simp only [Nat.sub_self, List.replicate_zero, List.nil_append, Nat.zero_add, bestOf] at this
+  rw [this]
+  cases g0 <;> simp
+
+/-- the dump-by-dump statement of the rule (with `filter`, `winner`, `carry`) is the one-pass
+    formulation used in the proofs -/
+theorem c10_rule_onepass {α : Type} (g : α → Bool) (k d : Nat) (c : α) (W : List (Int × α))
+    (hs : W.Pairwise (fun a b => a.1 ≤ b.1)) (hW : ∀ e ∈ W, (d : Int) ≤ e.1 ∧ e.1 < ((d + k : Nat) : Int)) :
+    ruleFrom g W d k c = ruleS g (d + k) d (bestV g c) c (natPairs W) :=
+  ruleFrom_eq_ruleS g k d c W hs hW
+
+/-! ### Non-vacuity -/
+
+-- the repo's own example (test_categorical.py::test_dump_to_event_parsing)
+example : sepd [0, 0, 1, 3, 3, 4, 4, 6, 8] [true, false, false, true, true, false, false, false]
+    = .ok ([0, 2, 4, 6, 7], [0, 1, 1, 3, 3, 4, 5, 6, 8]) := by decide
+-- prior event, several events per dump, greedy value 1 wins dump 1 although it is not the last
+example : (sensorToCategorical [-3, 2, 9, 10, 15] [0, 1, 2, 1, 2] [8, 16, 24] 8 none (some 1) [1, 0] false).map
+    Cat.perDump = .ok [some 1, some 1, some 2] := by decide
+example : rule [-3, 2, 9, 10, 15] [0, 1, 2, 1, 2] [8, 16, 24] 8 none (some 1) [1, 0] = some [1, 1, 2] := by decide
+-- the hypotheses of c10_rule_partial are satisfiable on that input
+example : (∃ t ∈ [-3, 2, 9, 10, 15], dumpOf [8, 16, 24] 8 t < ((2 + 1 : Nat) : Int)) ∧
+    ¬ ((∀ t ∈ [-3, 2, 9, 10, 15], 0 ≤ dumpOf [8, 16, 24] 8 t) ∧
+       (∃ iv, some 1 = some iv ∧ [1, 0].contains iv = true) ∧
+       (∃ t ∈ [-3, 2, 9, 10, 15], dumpOf [8, 16, 24] 8 t = 0)) := by decide
+-- an event exactly on the closing edge belongs to that dump, on the opening edge to "before"
+example : dumpOf [8, 16, 24] 8 8 = 0 ∧ dumpOf [8, 16, 24] 8 0 = -1 ∧ dumpOf [8, 16, 24] 8 9 = 1 ∧
+    dumpOf [8, 16, 24] 8 25 = 3 := by decide
+
 end C10
